@@ -14,7 +14,7 @@ LEVEL = "exploration"
 PROPS = ["C07"]
 
 
-IDPOOL = [2, 3, 5, 7, 11, 13, 100, 4095, 65536, 7000001] + list(range(200, 240))
+IDPOOL = [2, 3, 5, 7, 11, 13, 100, 4095, 65536, 7000001, 2147483647, -2, -2147483648, 268435456] + list(range(200, 240))
 
 
 def gen_script(rng, cid, cfg, length):
@@ -246,6 +246,11 @@ def _worker(a):
     rng = random.Random(seed)
     cfg = proto.Config.from_json(cfgj)
     ids = rng.sample(IDPOOL, nclients)
+    if nclients >= 10:
+        # an id of seven hex digits: its routing tag grows from 9 to 10 characters once the serial needs two digits
+        for big in (134217727, 16777216):
+            if big not in ids:
+                ids[-1 if big == 134217727 else -2] = big
     scripts = {cid: gen_script(rng, cid, cfg, length) for cid in ids}
     # optional: SIGUSR1 reloads that switch the service table (names keep their protocol) at fixed places of the merged order;
     # the solo reference of a client then has the reloads at the same places of ITS script
